@@ -259,6 +259,72 @@ class SqlSetStream(Stream):
         return 'raised' in obs
 
 
+class MongoSetStream(Stream):
+    name = 'mongo_migration_set'
+    imports = 'From Vakt Require Import Model.Migration Harness.RunC18.'
+    case_type = 'mcase'
+    run_fn = 'run_mig'
+    rule = ('the Mongo migration set (four migrations) on the Mongo client double, driven through Migrator by request '
+            'histories with an exception injected into any step; compared: raised?, recorded version (read back from '
+            'the version collection), steps run. non-trivial = history with a failing request')
+
+    def generate(self, rng, tier):
+        n = 80 if tier == 'quick' else 600
+        for _ in range(n):
+            # whole-set requests only: the bodies of this set (index creation / removal) fail by themselves when a
+            # by-number request has skipped a migration, which is the documented caveat of by-number requests
+            h = [[k, None, f] for k, _n, f in gen_history(rng, [1, 2, 3, 4], 6)]
+            yield {'orders': [1, 2, 3, 4], 'version': 0, 'hist': h}
+
+    def emit(self, c):
+        return RecordingStream().emit(c)
+
+    def impl(self, c):
+        from vakt.storage.mongo import MongoStorage, MongoMigrationSet
+        from vakt.storage.migration import Migrator
+        from ..fakes.mongo_fake import FakeMongoClient
+        st = MongoStorage(FakeMongoClient('4.2.1'), 'vakt_db')
+        mset = MongoMigrationSet(st)
+        ctl = Ctl()
+        orig = mset.migrations
+
+        def wrapped():
+            out = []
+            for m in orig():
+                up0, down0 = m.up, m.down
+
+                def up(m=m, up0=up0):
+                    ctl.step('up', m.order, mset.last_applied())
+                    up0()
+
+                def down(m=m, down0=down0):
+                    ctl.step('down', m.order, mset.last_applied())
+                    down0()
+                m.up, m.down = up, down
+                out.append(m)
+            return out
+        mset.migrations = wrapped
+        mig = Migrator(mset)
+        out = []
+        for kind, number, fault in c['hist']:
+            ctl.begin(fault)
+            try:
+                getattr(mig, kind)(number) if number is not None else getattr(mig, kind)()
+                s_ = 'ok'
+            except StepFault:
+                s_ = 'raised'
+            except Exception as e:  # noqa
+                s_ = 'raised:' + type(e).__name__
+            out.append('%s v=%d %s' % (s_, mset.last_applied(), ','.join(ctl.events)))
+        return ' | '.join(out)
+
+    def oracle(self, c, obs):
+        return RecordingStream().oracle(c, obs)
+
+    def nontrivial(self, c, obs):
+        return 'raised' in obs
+
+
 TRUSTED = [
     'Coq 8.16.1 kernel + vm_compute (no native_compute)',
     'Model/Migration.v (get_migrations, up/down loops, fault plan) hand-written from vakt/storage/migration.py, '
@@ -272,7 +338,7 @@ ASSUME = ['each migration body is atomic and its down inverts its up (bodies of 
 
 
 def main(argv):
-    return run_check('C18', [RecordingStream(), SqlSetStream()], argv, trusted_base=TRUSTED, assumptions=ASSUME)
+    return run_check('C18', [RecordingStream(), SqlSetStream(), MongoSetStream()], argv, trusted_base=TRUSTED, assumptions=ASSUME)
 
 
 if __name__ == '__main__':
